@@ -677,3 +677,50 @@ def nonnull_invariant(check: Check, mods: list, rule: str = "NONNULL-INVARIANT")
     if n == 0:
         check.ob(rule, mods[0].tree, "no test combines get_named_type(t) with is_list_type(t)", True, f"{len(mods)} modules scanned", nontrivial=False)
     return n
+
+
+def reserved_names(check: Check, repo: Repo, rule: str = "RESERVED-NAME") -> None:
+    from rules.language_rules import _BoolFold
+
+    check.rule(
+        rule,
+        "SchemaValidationContext.validate_name is shared by types, fields, arguments, enum values, input fields and "
+        "directives: its reserved-name report depends on nothing but `name.startswith('__')` - the test that guards the "
+        "report, folded over all valuations of its atoms, equals that atom. The one exemption (the introspection types "
+        "themselves) is made by the caller for *type objects* (is_introspection_type(type_) in validate_types), never by "
+        "name inside validate_name, where it would also exempt a field or argument called `__Type`",
+    )
+    ci = ClassIndex(repo).get("type.validate", "SchemaValidationContext")
+    fn = ci.methods().get("validate_name")
+    if fn is None:
+        raise AnalysisError("SchemaValidationContext.validate_name not found")
+    guards = [i for i in walk_body(fn) if isinstance(i, ast.If) and any(
+        isinstance(c, ast.Call) and isinstance(c.func, ast.Attribute) and c.func.attr == "startswith" and c.args
+        and isinstance(c.args[0], ast.Constant) and c.args[0].value == "__" for c in ast.walk(i.test))]
+    if len(guards) != 1:
+        raise AnalysisError("validate_name: reserved-name test not found")
+    g = guards[0]
+    reports = [c for s in g.body for c in ast.walk(s) if isinstance(c, ast.Call) and call_name(c).split(".")[-1] == "report_error"]
+    fold = _BoolFold()
+    fold.discover = True
+    fold.ev(g.test, {}, {})
+    fold.discover = False
+    atoms = list(fold.atoms)
+    key = next((a for a in atoms if "startswith('__')" in a), None)
+    import itertools as _it
+
+    bad = None
+    if key is None or not reports:
+        bad = "the report is not guarded by a plain startswith('__') atom"
+    else:
+        for bits in _it.product((False, True), repeat=len(atoms)):
+            val = dict(zip(atoms, bits))
+            if bool(fold.ev(g.test, {}, val)) != val[key]:
+                bad = f"with {[a for a in atoms if val[a]] or 'no atom'} true the report is {'made' if fold.ev(g.test, {}, val) else 'skipped'}"
+                break
+    check.ob(rule, g, "validate_name: reserved-name report <=> name.startswith('__')", bad is None,
+             f"guard `{unparse(g.test)}`" if bad is None else f"guard `{unparse(g.test)}`: {bad} - an element named like an exempted name is no longer reported")
+    vt = ci.methods().get("validate_types")
+    calls = [c for c in walk_body(vt) if isinstance(c, ast.Call) and call_name(c).split(".")[-1] == "validate_name"] if vt is not None else []
+    if not calls:
+        raise AnalysisError("validate_types: validate_name(type_) call not found")
